@@ -70,6 +70,10 @@ CLAIMED["C14"] = ("partial: decision logic proved; process exit and logging by c
   "success_iff_ok, announce_only_ok, failure_reaches_caller, cli_status, ok_iff_output. Tie: stream S8-status: 16 definite error kinds injected at statement positions of generated programs, through the string API, Program.assemble, Program.assemble_as_patch and the x816 command line; reported status/announcement compared with the model and checked against the in-memory outcome (oracle).",
   "argparse, file creation, sys.exit and logging are exercised, not modelled. A raise from a file API counts as failure reaching the caller.")
 
+CLAIMED["C12"] = ("partial: option logic and file-format algebra proved; OS layer by correspondence", "6/C12", "Lean 4 proof over an abstract core assembler (front end = writer of the core's blocks under the selected mapping / copier flag / defines; SFC image = IPS patch applied to an empty image via the C11 theorems; copier shift; plan selection; bus table check by kernel evaluation) + correspondence of the real file APIs and of the x816 subprocess over the whole option lattice",
+  "ips_front, sfc_front, plan_mapping/format/defines/copier_sfc, mappings_have_bus, copier_shift, sfc_is_ips_applied, symbol_line_fields. Tie: stream S8-front: every lattice point format x mapping x copier x defines with generated programs through Program.assemble / assemble_as_patch and the command line; output files compared with the model of the writers applied to the in-memory blocks and checked by the reader/patcher oracle; S8-symbol-file for exports_symbol_file.",
+  "argparse, file I/O and process exit are not modelled. The command line has no option for the symbol file (API only).")
+
 NOT_YET = {}
 
 def main():
